@@ -185,6 +185,16 @@ impl Format {
                 || ((cur_token.is_numeric() && !char.is_numeric())
                     || (!cur_token.is_numeric() && (cur_item.sep_char_is(char))))
             {
+                // The sign of an hours offset that follows the separators of the previous token.
+                if cur_token == Token::OffsetHours && idx == prev_idx && (char == '+' || char == '-')
+                {
+                    if char == '-' {
+                        offset_sign = -1;
+                    }
+                    prev_idx += 1;
+                    continue;
+                }
+
                 // If we've found the second separator of the previous token, let's simply increment the start index of the next substring.
                 if idx == prev_idx
                     && (prev_item.second_sep_char.is_none() || prev_item.second_sep_char_is(char))
@@ -211,6 +221,22 @@ impl Format {
                     // This is a single character to represent UTC
                     // UTC is the default time scale, so we don't need to do anything.
                     break;
+                }
+
+                if cur_token == Token::OffsetHours && char == ':' {
+                    // `+HH:MM`: the hours end here, the minutes follow within the same item.
+                    let hours: i32 = s
+                        .get(prev_idx..idx)
+                        .and_then(|sub_str| lexical_core::parse(sub_str.as_bytes()).ok())
+                        .ok_or(HifitimeError::Parse {
+                            source: ParsingError::ValueError,
+                            details: "could not parse the hours of the offset",
+                        })?;
+                    cur_token.value_ok(hours)?;
+                    decomposed[7] = hours;
+                    cur_token = Token::OffsetMinutes;
+                    prev_idx = idx + 1;
+                    continue;
                 }
                 prev_item = cur_item;
                 prev_token = cur_token;
@@ -361,10 +387,10 @@ impl Format {
                         source: ParsingError::UnknownFormat,
                         details: "non-ASCII input when parsing from format string",
                     })?;
-                    if sign == "-" {
+                    // Without a separator, the character that ended the previous token is the sign.
+                    if prev_item.sep_char.is_none() && sign == "-" {
                         offset_sign = -1;
                     }
-                    prev_idx += 1;
                 }
             }
         }
